@@ -137,7 +137,7 @@ func (e *replEnv) leaderWrite(tname string) {
 		cmd = &regattapb.Command{Type: regattapb.Command_DELETE, Table: c.Table, Kv: &regattapb.KeyValue{Key: c.Kv.Key}, PrevKvs: c.PrevKvs, RangeEnd: c.RangeEnd, Count: c.Count}
 	case regattapb.Command_TXN:
 		rq := &regattapb.TxnRequest{Table: c.Table, Compare: c.Txn.Compare, Success: c.Txn.Success, Failure: c.Txn.Failure}
-		if rq.IsReadonly() {
+		if txnIsReadonly(rq) {
 			return
 		}
 		var r *regattapb.TxnResponse
